@@ -25,7 +25,7 @@ def Desc.entry : Desc → Entry
 
 /-- absolute records of a wrapper's inner messages -/
 def wrapRecs (m : Msg) (inner : List Msg) : List Rec :=
-  inner.map fun x => { recOfMsg x with offset := (m.offset - lastOffset inner) + x.offset }
+  inner.map fun x => stamp (logAppend m.attributes) m.ts { recOfMsg x with offset := (m.offset - lastOffset inner) + x.offset }
 
 def Desc.group : Desc → Bool × List Rec
   | .batch f xs => (isControl f.attributes, xs.map (recOfV2 f))
@@ -36,7 +36,7 @@ def recToks (tagOf : Rec → Nat) (f : FrameV2) (xs : List RecV2) : List (Int ×
   xs.map fun r => (r.offDelta, tagOf (recOfV2 f r), (encRec r).length)
 
 def innerToks (tagOf : Rec → Nat) (m : Msg) (inner : List Msg) : List (Int × Nat) :=
-  inner.map fun x => (x.offset, tagOf { recOfMsg x with offset := (m.offset - lastOffset inner) + x.offset })
+  inner.map fun x => (x.offset, tagOf (stamp (logAppend m.attributes) m.ts { recOfMsg x with offset := (m.offset - lastOffset inner) + x.offset }))
 
 def Desc.item (c : Crcs) (tagOf : Rec → Nat) : Desc → Item
   | .batch f xs => .b2 f.baseOffset (f.baseOffset + f.lastOffsetDelta) (decide (codecOf f.attributes ≠ 0)) f.payload.length
